@@ -97,6 +97,11 @@ class Ctx:
             fn(self, *args)
         except AnalysisError as e:
             self.inconclusive_rules.append(str(e))
+        except Exception as e:          # a rule that cannot cope with the shape of the code is undecided, never a verdict
+            import traceback
+            tb = traceback.extract_tb(e.__traceback__)[-1]
+            self.inconclusive_rules.append("checker exception in %s (%s:%d): %s: %s" % (
+                getattr(fn, "__name__", "rule"), tb.filename.split("/")[-1], tb.lineno, type(e).__name__, e))
 
     def note(self, text):
         self.notes.append(text)
